@@ -184,7 +184,11 @@ def build(v, path="?"):
             return collections.namedtuple(v["$nt"], v["$fields"])(*items)
         return tuple(items)
     if "$dict" in v:
-        return {(tuple(k) if isinstance(k, list) else k): build(x, path) for k, x in v["$dict"]}
+        out = {}
+        for k, x in v["$dict"]:
+            kk = build(k, path) if isinstance(k, dict) else (tuple(k) if isinstance(k, list) else k)
+            out[kk] = build(x, path)
+        return out
     if "$set" in v:
         return set(build(x, path) for x in v["$set"])
     if "$kwargs" in v:
